@@ -65,13 +65,23 @@ func source(kind string, file []byte) io.Reader {
 	return bytes.NewReader(file)
 }
 
-var sourceKinds = []string{"plain", "section", "bufio"}
+var sourceKinds = []string{"plain", "section", "bufio", "logged"}
+
+// nullLogger: reading with the logging option switched on must not change
+// what is read (source kind "logged").
+type nullLogger struct{ n int }
+
+func (l *nullLogger) Printf(format string, vals ...interface{}) { l.n++ }
 
 func decodeVia(kind string, file []byte, exp *refsmf.File) (diff string, track int, what string, c engine.Caught) {
 	var got *smf.SMF
 	var err error
 	src := source(kind, file)
-	c = engine.Catch(func() { got, err = smf.ReadFrom(src) })
+	var opts []smf.ReadOption
+	if kind == "logged" {
+		opts = append(opts, smf.Log(&nullLogger{}))
+	}
+	c = engine.Catch(func() { got, err = smf.ReadFrom(src, opts...) })
 	if c.Panicked {
 		return "panic", -1, c.Value, c
 	}
